@@ -593,6 +593,7 @@ package main
 //@   requires [C13] t != nil && join != nil && h != nil && join.sess != nil && t.perUser != nil
 //@   requires [C13,assumed] p2p_from_sub: (hasPrefix(t.xoriginal, "usr") || hasPrefix(t.xoriginal, "p2p")) ==> join.Sub != nil
 //@   modifies *
+//@   ensures [C13,C14] subscribe_answered_or_handed_over: old(join.Sub != nil) ==> outTotal > old(outTotal) || sent(old(t.reg)) > old(sent(t.reg))
 //@   ensures [C14] join_mark_released_or_handed_over: old(join.Sub != nil && join.sess.inflightReqs != nil) ==> doneCalls > old(doneCalls) || sent(old(t.reg)) > old(sent(t.reg))
 //@   assert at call Session.queueOut#1 [C13] failure_to_requester: $0 == join.sess && $1 != nil && $1.Ctrl != nil && $1.Ctrl.Id == join.Id
 //@   assert at call Session.queueOut#2 [C13] pending_to_sender: $0 == msg.sess && $1 != nil && $1.Ctrl != nil && $1.Ctrl.Id == msg.Id
